@@ -443,9 +443,7 @@ func (Driver) Run(c *core.Ctx) {
 		total = 0
 	}
 	if c.Batch < nb {
-		if c.Batch == 0 {
-			runCorpus(e, false)
-		}
+		runCorpus(e, false, nb)
 		for g := int64(c.Batch); g < total; g += int64(nb) {
 			if !c.Want(g) {
 				continue
@@ -465,7 +463,7 @@ func (Driver) Run(c *core.Ctx) {
 	}
 	k := c.Batch - nb
 	if k == 0 {
-		runCorpus(e, true)
+		runCorpus(e, true, nb)
 	}
 	for g := int64(k); g < total; g += int64(nr) {
 		if !c.Want(g) {
